@@ -357,6 +357,8 @@ def checkRef (e : Env) : Nat → Nat → Name → Ty → Res
               | some l =>
                 match checkGeneral e f l o c with
                 | .ok => .ok
+                | .unsupported => .unsupported
+                | .outOfFuel => .outOfFuel
                 | err => if c.isRef then checkRefClass e f lvl n c else err
       | .enum => .unsupported
       | .cls => checkRefClass e f lvl n c
@@ -497,11 +499,8 @@ def checkTgen (e : Env) : Nat → Nat → List Ty → Ty → Res
         else .ok
       | _ => .notMatch
     | .prim .userdata => .ok
-    | .ref n =>
-      withNext lvl fun _ =>
-        if ps.length ≠ 2 then .notMatch
-        else if e.isAlias n then .unsupported
-        else .ok
+    -- `get_members(LuaMemberOwner::Type(id))` is `None` for member-less classes and for aliases
+    | .ref _ => withNext lvl fun _ => if ps.length ≠ 2 then .notMatch else .ok
     | .union ms => allOk (fun m => checkTgen e f lvl ps m) ms.toList
     | _ => .notMatch
 end
